@@ -65,6 +65,9 @@ func runHistmon(cfg *RunCfg, rep *Reporter, cov *Cov) {
 	if prop == "C09" {
 		runTypedKeys(cfg, rep, cov)
 	}
+	if prop == "C16" {
+		runCompactAges(cfg, rep, cov)
+	}
 }
 
 func runOneHistory(cfg *RunCfg, rep *Reporter, cov *Cov, idx, steps int) {
